@@ -16,7 +16,8 @@ CFG = {
             "byte value a Rust String can contain (alone and embedded) plus random ones, with explicit headers "
             "including Location; live-*: the same read over the wire from fixed-type endpoints. JSON bodies are "
             "parsed back into the payload type and compared with the original value. Non-trivial: every case; "
-            "distinct by case content.",
+            "distinct by case content."
+            " Large-scope slice (groups large / large-live, tags large:<dimension>:<n>): every size-like dimension pushed across 15/16/17, 31..33, 63..65, 127..129, 255..257, 1023..1025, 4095..4097, 8191..8193, 65535..65537 (thorough also 1 MiB-1/+0/+1): JSON string body, FreeformBody and array-of-n-elements body for each of Ok/Created/Accepted (ASCII and 2/3/4-byte characters straddling 255|256, 4095|4096, 65535|65536), nesting depth 15..65 (serde_json's reader stops at 128), length of a declared header value, of an explicit header value and of a redirect Location (legal, and illegal in the last byte), locally and over the wire; number of declared header fields (a header struct with a run-time field list driving to_map through serialize_struct/serialize_field), of explicit headers and of values under one name - every round number up to 257 plus one 1024 case in quick, up to 1025 plus 4095/4096/4097 in thorough (the model's header map is an association list, Coq time is quadratic in the count; http's HeaderMap itself ends at 32768 entries); 1030 (thorough 8200) responses of four kinds on one keep-alive connection. Same judge, same model and spec as the ordinary cases. Long periodic strings are written in the Coq case as srep n unit (lossless); strings above 200000 bytes (the 1 MiB cases) are replaced in the Coq case by a token (first/last 16 bytes, length, 64-bit FNV-1a hash, the first illegal header byte if any) that preserves every equality and legality test the judge makes, up to hash collision.",
     "exhaustive_note": "kind x payload type x header struct grid is complete for the compiled families; redirect "
                        "locations cover all 256 one-character strings U+0000-U+00FF and every UTF-8 lead/continuation "
                        "byte (all byte values except C0, C1, F5-FF, which no String contains); values and explicit "
